@@ -93,6 +93,19 @@ def side_case(seed):
     xv = dense(x0.cores).reshape(n)
     I = np.eye(n)
     desc = dict(which=which, dims=dims, normalize=normalize, complex=cplx)
+    scale = 1.0
+    thr_kw = 0
+    if normalize == 0 and which in ('explicit', 'hod') and rng.random() < 0.3:
+        # a state of tiny norm with the default relative threshold: the cut is relative to the largest singular value,
+        # so nothing of the state may be truncated away
+        scale = rng.choice([1e-10, 1e-13])
+        thr_kw = 1e-12
+        x0 = scale * x0
+        desc_scale = True
+    else:
+        desc_scale = False
+    xv = dense(x0.cores).reshape(n)
+    desc['tiny_state'] = desc_scale
     snap = snapshot([A, x0])
     tol = 1e-7
 
@@ -107,7 +120,7 @@ def side_case(seed):
                 # a finite cap that every exact state fits in (the largest maximal TT rank): no effective truncation
                 kw['max_rank'] = max(max_ranks(dims))
                 desc['max_rank'] = kw['max_rank']
-            sol = ode.explicit_euler(A, x0, hs, threshold=0, normalize=normalize, progress=False, **kw)
+            sol = ode.explicit_euler(A, x0, hs, threshold=thr_kw, normalize=normalize, progress=False, **kw)
             ref = [xv]
             for h in hs:
                 ref.append(normed((I + h * Am) @ ref[-1]))
@@ -137,10 +150,15 @@ def side_case(seed):
             o = rng.choice([2, 4, 6, 8])
             o_arg = o - 1 if rng.random() < 0.3 else o        # an odd order is documented to be raised to the next even one
             desc['order'] = o_arg
-            sol = ode.hod(A, x0, h, steps, order=o_arg, threshold=0, normalize=normalize, progress=False)
+            pv = None
+            if rng.random() < 0.4:
+                # a supplied previous state (not normalised by the caller): the start-up normalises it like the computed one
+                pv = scale * gen_tt(rng, dims, [1] * order, max_ranks(dims), cplx, 'float')
+                desc['previous_value'] = True
+            sol = ode.hod(A, x0, h, steps, order=o_arg, previous_value=pv, threshold=thr_kw, normalize=normalize, progress=False)
             oph = sum(2 / math.factorial(2 * k - 1) * h ** (2 * k - 1) * np.linalg.matrix_power(Am, 2 * k - 1) for k in range(1, o // 2 + 1))
             opf = h * Am + sum(2 / math.factorial(2 * k - 1) * (h / 2) ** (2 * k - 1) * np.linalg.matrix_power(Am, 2 * k - 1) for k in range(2, o // 2 + 1))
-            prev = normed(xv - opf @ ((I - 0.5 * h * Am) @ xv))
+            prev = normed(xv - opf @ ((I - 0.5 * h * Am) @ xv)) if pv is None else normed(dense(pv.cores).reshape(n))
             ref = [xv]
             for i in range(steps):
                 p = prev if i == 0 else ref[i - 1]
@@ -193,8 +211,8 @@ def side_case(seed):
         if not consistent(t):
             return 'state %d inconsistent' % k, desc
         v = dense(t.cores).reshape(n)
-        if not close(v, r, tol):
-            return 'state %d differs from the dense recurrence: max err %.2e' % (k, float(np.max(np.abs(v - r)))), desc
+        if not close(v / scale, r / scale, tol):
+            return 'state %d differs from the dense recurrence: max err %.2e (state scale %.0e)' % (k, float(np.max(np.abs(v - r))), scale), desc
         if k > 0 and normalize > 0 and abs(nrm(v, normalize) - 1) > 1e-8:
             return 'state %d does not have unit %d-norm' % (k, normalize), desc
     return None, desc
